@@ -71,8 +71,8 @@ fn ip_alphabet(a: &Addr, hole: u64) -> Vec<u64> {
 // Family D: synthetic linker data behind AT_PHDR
 
 pub struct Window {
-    base: u64,
-    image: Vec<u8>,
+    pub(crate) base: u64,
+    pub(crate) image: Vec<u8>,
     fields: Vec<(String, usize)>, // (name, offset) of every 8-byte field
 }
 
@@ -217,13 +217,22 @@ const N_SHAPES: usize = 12;
 
 /// A long-lived target that can host most families.
 pub struct Host {
-    b: Built,
-    addr: Addr,
-    hole: u64,
-    win: Window,
+    pub(crate) b: Built,
+    pub(crate) addr: Addr,
+    pub(crate) hole: u64,
+    pub(crate) win: Window,
 }
 
-fn make_host() -> Host {
+pub(crate) const N_LINKER_SHAPES: usize = N_SHAPES;
+
+/// Options that make the writer read the synthetic linker window instead of the target's own data.
+pub(crate) fn window_opts(h: &Host) -> DumpOpts {
+    let mut o = DumpOpts::default();
+    o.direct_auxv = Some((2, h.win.base + PH as u64, h.addr.auxv.2, h.addr.auxv.3));
+    o
+}
+
+pub(crate) fn make_host() -> Host {
     let mut shape = Shape::threads(3);
     shape.patterns.push((2, "hole".into(), "rw".into())); // [0] window for synthetic linker data (reads past its end are short)
     shape.patterns.push((1, "hole".into(), "rw".into())); // [1] app memory
@@ -233,6 +242,30 @@ fn make_host() -> Host {
     let win = build_window(b.pattern_addrs[0]);
     b.p.write(win.base, &win.image);
     Host { b, addr, hole, win }
+}
+
+
+/// The synthetic linker window rewritten into chain shape `shape`.
+pub(crate) fn linker_shape_image(h: &Host, shape: usize) -> (Vec<u8>, &'static str) {
+    let base = h.win.base;
+            let mut img = h.win.image.clone();
+            let lm = |i: usize| base + (LM + 0x40 * i) as u64;
+            let set = |img: &mut Vec<u8>, off: usize, v: u64| img[off..off + 8].copy_from_slice(&v.to_le_bytes());
+            let what = match shape {
+                0 => { set(&mut img, RD + 8, 0); "empty chain" }
+                1 => { set(&mut img, LM + 24, 0); "one object" }
+                2 => { set(&mut img, LM + 24, lm(0)); "link_map whose l_next points to itself" }
+                3 => { set(&mut img, LM + 0x40 + 24, lm(0)); "two-object cycle" }
+                4 => { set(&mut img, LM + 0x80 + 24, lm(1)); "cycle back into the middle" }
+                5 => { set(&mut img, LM + 8, h.hole); "l_name unmapped" }
+                6 => { set(&mut img, LM + 8, h.hole - 100); "l_name within 256 bytes of the end of readable memory" }
+                7 => { img[ST..ST + 4].copy_from_slice(b"\xff\xfe\xfd\x00"); "l_name not UTF-8" }
+                8 => { for b in img[ST..].iter_mut() { *b = b'x'; } "l_name unterminated up to the end of readable memory" }
+                9 => { for i in 0..((0x2000 - DY) / 16) { set(&mut img, DY + 16 * i, 1); } "dynamic section without DT_NULL up to the end of readable memory" }
+                10 => { set(&mut img, RD + 8, h.hole - 16); "r_map pointing 16 bytes before unreadable memory" }
+                _ => { set(&mut img, DY + 24, h.hole - 8); "r_debug 8 bytes before unreadable memory" }
+            };
+    (img, what)
 }
 
 fn opts_bits(o: &mut DumpOpts, bits: u8, h: &Host) {
@@ -283,23 +316,7 @@ fn run_on_host(h: &mut Host, c: &Case) -> Verdict {
         }
         Case::LinkerShape { shape } => {
             let base = h.win.base;
-            let mut img = h.win.image.clone();
-            let lm = |i: usize| base + (LM + 0x40 * i) as u64;
-            let set = |img: &mut Vec<u8>, off: usize, v: u64| img[off..off + 8].copy_from_slice(&v.to_le_bytes());
-            let what = match shape {
-                0 => { set(&mut img, RD + 8, 0); "empty chain" }
-                1 => { set(&mut img, LM + 24, 0); "one object" }
-                2 => { set(&mut img, LM + 24, lm(0)); "link_map whose l_next points to itself" }
-                3 => { set(&mut img, LM + 0x40 + 24, lm(0)); "two-object cycle" }
-                4 => { set(&mut img, LM + 0x80 + 24, lm(1)); "cycle back into the middle" }
-                5 => { set(&mut img, LM + 8, h.hole); "l_name unmapped" }
-                6 => { set(&mut img, LM + 8, h.hole - 100); "l_name within 256 bytes of the end of readable memory" }
-                7 => { img[ST..ST + 4].copy_from_slice(b"\xff\xfe\xfd\x00"); "l_name not UTF-8" }
-                8 => { for b in img[ST..].iter_mut() { *b = b'x'; } "l_name unterminated up to the end of readable memory" }
-                9 => { for i in 0..((0x2000 - DY) / 16) { set(&mut img, DY + 16 * i, 1); } "dynamic section without DT_NULL up to the end of readable memory" }
-                10 => { set(&mut img, RD + 8, h.hole - 16); "r_map pointing 16 bytes before unreadable memory" }
-                _ => { set(&mut img, DY + 24, h.hole - 8); "r_debug 8 bytes before unreadable memory" }
-            };
+            let (img, what) = linker_shape_image(h, *shape);
             h.b.p.write(base, &img);
             let mut o = DumpOpts::default();
             o.direct_auxv = Some((2, base + PH as u64, h.addr.auxv.2, h.addr.auxv.3));
